@@ -89,7 +89,7 @@ func runStat(c *engine.Chooser, name, cfg string, p rlwe.Parameters, pk, isNTT b
 				c.Fail(gen+"noise-upper", "%s level %d: |e|∞=%v > %v", cfg, level, ref.InfNorm(e), bound)
 				return
 			}
-			hs[w] = rk.HashPoly(uni.PolyCoeffs(rQ, ct.Value[1], level, ct.IsNTT, false))
+			hs[w] = rk.HashPoly(rk.PolyCoeffs(rQ, ct.Value[1], level, ct.IsNTT, false))
 			if w == 0 {
 				pool.Add(e)
 				c1seen[hs[0]] = true
@@ -103,6 +103,7 @@ func runStat(c *engine.Chooser, name, cfg string, p rlwe.Parameters, pk, isNTT b
 	c.Count(2 * reps)
 	nominal := nominalSigma(p, pk, pk && p.PCount() > 0, s2, epk2)
 	c.Note("pooled %d coefficients: std %.3f nominal %.3f nonzero %d", pool.N, pool.Std(), nominal, pool.NonZero)
+	c.Cover("stat-ratio(empirical/nominal sigma)", fmt.Sprintf("%.1f", pool.Std()/nominal)) // evidence: how far from the window edges 0.5 / 2.0
 	if pool.NonZero == 0 {
 		c.Fail(gen+"error-all-zero", "%s: %d pooled error coefficients are all zero", cfg, pool.N)
 		return
@@ -205,6 +206,7 @@ func statPkProbes(c *engine.Chooser, cfg string, p rlwe.Parameters, pub *rlwe.Pu
 		return
 	}
 	for i, pl := range []*rk.Pool{&p0, &p1} {
+		c.Cover("stat-ratio(empirical/nominal sigma)", fmt.Sprintf("%.1f", pl.Std()/se))
 		if pl.NonZero == 0 || !inWindow(pl.Std(), se) {
 			c.Fail(gen+"zero-pk/sigma-window", "%s: error component e%d: empirical σ %.4f (nonzero %d/%d) outside [σ/2,2σ] of the nominal %.4f", cfg, i, pl.Std(), pl.NonZero, pl.N, se)
 			return
@@ -213,6 +215,7 @@ func statPkProbes(c *engine.Chooser, cfg string, p rlwe.Parameters, pub *rlwe.Pu
 	if pE.N > 0 {
 		c.Cover("stat-probe", "pk-QP")
 		nominal := nominalSigma(p, true, false, s2, epk2)
+		c.Cover("stat-ratio(empirical/nominal sigma)", fmt.Sprintf("%.1f", pE.Std()/nominal))
 		if pE.NonZero == 0 || !inWindow(pE.Std(), nominal) {
 			c.Fail(gen+"QP/sigma-window", "%s: QP-target pk-encryption error: empirical σ %.4f outside [σ/2,2σ] of the nominal %.4f", cfg, pE.Std(), nominal)
 		}
